@@ -192,7 +192,8 @@ class RegionBoundingBox:
         ymin = self.iymin
         ymax = self.iymax
 
-        if xmin >= shape[1] or ymin >= shape[0] or xmax <= 0 or ymax <= 0:
+        if (min(xmax, shape[1]) <= max(xmin, 0)
+                or min(ymax, shape[0]) <= max(ymin, 0)):
             # no overlap of the bounding box with the input shape
             return None, None
 
